@@ -75,6 +75,18 @@ int main(int argc, char** argv) {
     RCHECK((e == NONE) == found && (e == NONE || e == OOR), "%s at %zu on %zu bytes (terminator %s): %s", m.c_str(), at, len, found ? "present" : "absent", e == NONE ? "returned" : "threw");
     if (e == NONE) { RCHECK(s.size() == z - at && memcmp(s.data(), d + at, z - at) == 0, "string content");
       if (!pos) RCHECK(r.where() == off + (adv ? s.size() + 1 : 0) && r.where() <= len, "cursor %zu", r.where()); }
+    // the same call on an EMPTY string (the terminator right at the position) and on a one-character string
+    if (at < len) {
+      for (size_t body = 0; body < 2 && at + body < len; body++) {
+        for (size_t i = at; i < len; i++) if (d[i] == 0) d[i] = 1;
+        d[at + body] = 0;
+        StringReader r2(d, len, off); string s2;
+        Exc e2 = run([&] { s2 = pos ? r2.pget_cstr(at) : r2.get_cstr(adv); });
+        RCHECK(e2 == NONE, "%s threw on a %zu-character string at %zu", m.c_str(), body, at);
+        RCHECK(s2.size() == body && memcmp(s2.data(), d + at, body) == 0, "%s on a %zu-character string returned %zu bytes", m.c_str(), body, s2.size());
+        if (!pos) RCHECK(r2.where() == off + (adv ? body + 1 : 0), "cursor after %s on a %zu-character string: %zu, expected %zu (right behind the terminator)", m.c_str(), body, r2.where(), off + (adv ? body + 1 : 0));
+      }
+    }
   }
   else if (m == "get_line") {
     for (size_t i = 0; i < len; i++) if (d[i] == '\n') d[i] = 'x';
